@@ -500,6 +500,102 @@ def replay_file(rep, hbin, tier, path):
     return False
 
 
+# ---------------------------------------------------------------- closers (extension round 2)
+def _paren_depth(s):
+    d = m = 0
+    for ch in s:
+        if ch == "(":
+            d += 1
+            m = max(m, d)
+        elif ch == ")":
+            d -= 1
+    return m
+
+
+def part_closers(rep, hbin, tier, seed, cov):
+    """Properties/C10Closers.v (depth hypothesis derived from the accepted input) + its tie on the real code:
+    directed deep texts in expanded spellings, printed form must not be deeper and must parse to the same object."""
+    thms, blocks, problems, _ = vlib.check_property_file("C10Closers")
+    if problems:
+        rep.violation("property-file", "; ".join(problems),
+                      {"property": PID, "broken_tie": "Properties/C10Closers.v", "problems": problems}, found_input=False)
+    cov.setdefault("theorems_closers", thms)
+    cov["print_assumptions_closers"] = [("closed" if b["closed"] else ",".join(b["axioms"])) for b in blocks]
+    depths = [1, 2, 7, 60, 200, 380, 396, 397, 398, 399, 400, 401, 402] + ([150, 300, 390, 395] if tier == "thorough" else [])
+    fams = {
+        "or_i(0,X)->l:": lambda d: "or_i(0," * d + "pk(A)" + ")" * d,
+        "or_i(X,0)->u:": lambda d: "or_i(" * d + "pk(A)" + ",0)" * d,
+        "and_v(X,1)->t:": lambda d: "and_v(" + "v:and_v(" * (d - 1) + "vc:pk_k(A)" + ",1)" * d,
+        "c:pk_k->pk under and_v chain": lambda d: "and_v(vc:pk_k(A)," * d + "c:pk_k(B)" + ")" * d,
+        "andor(X,Y,0)->and_n": lambda d: "andor(pk(A)," * d + "pk(B)" + ",0)" * d,
+        "plain or_d chain": lambda d: "or_d(pk(A)," * d + "pk(B)" + ")" * d,
+        "thresh chain": lambda d: "thresh(1," * d + "pk(B)" + ")" * d,
+        "sugar l: prefix": lambda d: "l" * min(d, 400) + ":pk(A)",
+        "sugar u: prefix": lambda d: "u" * min(d, 400) + ":pk(A)",
+        "sugar tv: prefix": lambda d: "tv" * min(d, 199) + ":pk(A)",
+        "sugar and_n chain": lambda d: "and_n(pk(A)," * d + "pk(B)" + ")" * d,
+        "mixed l:tv:": lambda d: "or_i(0,and_v(v:" * ((d + 1) // 2) + "pk(A)" + ",1))" * ((d + 1) // 2),
+    }
+    lines, meta = [], []
+    for name, f in fams.items():
+        for d in depths:
+            t = f(d)
+            for kind in ("ms-segwit", "ms-tap"):
+                lines.append("%s %s" % (kind, t))
+                meta.append((name, d, kind, t))
+    tmp = os.path.join(vlib.WORK, "c10-closers.txt")
+    os.makedirs(vlib.WORK, exist_ok=True)
+    open(tmp, "w").write("\n".join(lines) + "\n")
+    q = _run_engine(hbin, ["rt", "1", tier, tmp], tier)
+    out = re.findall(r"^REPLAY kind=(\S+) (.*)$", q.stdout, flags=re.M)
+    accepted = rejected = shallower = same = 0
+    maxdepth_accepted = 0
+    samples = []
+    obligations = 1 + len(meta)
+    bad = 0 if not problems else 1
+    if len(out) != len(meta):
+        rep.violation("closers:engine", "text rt replay returned %d lines for %d texts" % (len(out), len(meta)),
+                      {"property": PID, "broken_tie": "text rt (closers stage)"}, found_input=False)
+        return obligations, 0
+    for (name, d, kind, t), (k2, res) in zip(meta, out):
+        din = _paren_depth(t)
+        robj = {"property": PID, "part": "round-trip", "key": "closers:depth", "kind_line": "%s %s" % (kind, t),
+                "family": name, "nesting": d, "input_depth": din}
+        if res.startswith("rejected:"):
+            rejected += 1
+            continue
+        m = re.search(r"dump=(.*?) printed=(.*?) redump=(.*?) reprinted=(.*)$", res)
+        if not m:
+            bad += 1
+            rep.violation("closers:reparse", "accepted text of depth %d (%s): printed form does not parse back: %s" % (din, name, res[:300]), robj, True)
+            continue
+        accepted += 1
+        dout = _paren_depth(m.group(2))
+        maxdepth_accepted = max(maxdepth_accepted, din)
+        if dout > din or dout > 402:
+            bad += 1
+            rep.violation("closers:depth", "printed form is deeper than the accepted text (%d > %d, %s)" % (dout, din, name), robj, True)
+        elif m.group(1) != m.group(3) or m.group(2) != m.group(4):
+            bad += 1
+            rep.violation("closers:fixpoint", "printed form parses to a different object (%s, depth %d)" % (name, din), robj, True)
+        else:
+            if dout < din:
+                shallower += 1
+            else:
+                same += 1
+            if len(samples) < 4 and d == 2:
+                samples.append("%s -> %s" % (t, m.group(2)))
+    if accepted < len(fams) or shallower == 0 or same == 0:
+        bad += 1
+        rep.violation("closers:vacuous", "directed deep texts: accepted=%d shallower=%d same=%d" % (accepted, shallower, same),
+                      {"property": PID, "broken_tie": "closers stage generator"}, found_input=False)
+    cov["closers_depth_stage"] = {"texts": len(meta), "accepted": accepted, "rejected": rejected,
+                                  "printed_shallower": shallower, "printed_same_depth": same,
+                                  "deepest_accepted_input": maxdepth_accepted, "families": sorted(fams)}
+    cov.setdefault("samples", []).extend(samples)
+    return obligations, obligations - bad
+
+
 def run(rep, tier, seed, replay):
     hbin = vlib.build_harness()
     if replay:
@@ -524,6 +620,9 @@ def run(rep, tier, seed, replay):
     obligations += o
     discharged += d
     o, d = part_e(rep, hbin, tier, seed, cov)
+    obligations += o
+    discharged += d
+    o, d = part_closers(rep, hbin, tier, seed, cov)
     obligations += o
     discharged += d
     rt_total, rt_fail = part_c(rep, hbin, tier, seed, cov)
